@@ -1294,3 +1294,21 @@ LEVEL_NOTE = LEVEL_NOTE + (" Model = code (format side): coq/Gen/FormatterMethod
                            "fails closed (self-tested by mutation). Still hand + pinned (hand_modelled_sources_unchanged): the tokenizer (tokenize / bracket_body: the reading of _FORMAT_RE over the "
                            "generated alternatives), apply_rule / render_dec (the reading of the f-string lambdas of _TOKENS_RULES), Locale.ordinalize, Locale.load / find_locale, isoformat_T, the "
                            "interpretation string_helper of the generated to_*_string table, and the whole parse side (Model/FormatterParse.v: _get_parsed_values, _check_parsed, pattern assembly).")
+
+
+# the parse-side method bodies are translated from /repo on every run and the hand models are PROVED equal to the translation
+TRUSTED = list(TRUSTED) + [
+    "tools/vlib/pyfloat2gallina.py + tools/vlib/gens/g73_formatter_parse.py (reading rules in its docstring: the dict `parsed` = the record threaded as a state, parsed[<static key>] = e = the setter, "
+    "self._PARSE_TOKENS[token](value) = apply_parse_token over the generated table, a parsed value in integer arithmetic = pv_int, \"c\" in s = contains, s.startswith / s[a:b] / len(s) == n / "
+    "a, b = s.split(\":\") / int(s) = starts_with / firstn-skipn / length / split2_colon / int_of_str, pendulum.timezone(x) = TzFixed / TzNamed, value not in pendulum.timezones() = the zones parameter, "
+    "locale.match_translation(<static key>, value) = match_translation on that table, the loop over m.re.groupindex = the fold over the group names with m.group(index) = group_of, Formatter.parse = the "
+    "recognised statement list, failing closed on any other) and coq/Model/FormatterParsePrims.v: they replace the former trust in the hand CONTROL FLOW of get_parsed_value, get_parsed_locale_value "
+    "(except its a / A branch = the primitive parse_meridiem, not translated), get_parsed_values / fold_matches and parse of coq/Model/FormatterParse.v, now PROVED equal to the translation for every "
+    "token, text, state, locale and format: model_is_code_get_parsed_value, model_is_code_get_parsed_locale_value, model_is_code_get_parsed_values, model_is_code_from_format_parse (closed under the "
+    "global context). Still hand-written + pinned by fingerprint (hand_modelled_sources_unchanged): the regex engine (mre, search_anchored, sub_matches), re_escape, the tokenisation of the escaped "
+    "format (ff_tokenize), _replace_tokens (replace_token / assemble / pattern_re), _check_parsed (check_parsed: quarter, day of year, day of week, meridiem, defaults, timestamp), the a / A branch, "
+    "Locale.match_translation, ts_of_text (the float code of X / x) and pendulum.from_format's three lines (tz default, datetime(**parts))",
+]
+LEVEL_NOTE = LEVEL_NOTE + (" Model = code (parse side): coq/Gen/FormatterParseMethods.v is translated on every run and Proofs/FormatterParseMethodsFacts.v proves get_parsed_value (whole elif chain: YY pivot, "
+                           "hh > 12, Z / ZZ offset text, z, X / x), get_parsed_locale_value (except a / A), get_parsed_values and parse's statement list equal to it (self-tested by 20 mutations: offset sign, "
+                           "pivot 68 / 69, elif order, wrong key, missing re.escape ...). _check_parsed (incl. the meridiem arithmetic), _replace_tokens, the regex engine and the tokenisation stay hand + pinned.")
